@@ -804,6 +804,13 @@ func (ch *child) runCase(d caseDesc) {
 			return
 		}
 	}
+	if rq.EmptyFrames > 0 && cs.secure {
+		var many []byte
+		for i := 0; i < rq.EmptyFrames; i++ {
+			many = append(many, c.SealEmptyFrame()...)
+		}
+		c.WriteRaw(many)
+	}
 	if rq.OneFrame && cs.secure {
 		c.SendOneFrame(msg)
 	} else {
